@@ -273,6 +273,8 @@ impl AbstractTree for BlobTree {
         let config = self.tree_config();
         let mut versions = self.get_version_history_lock();
 
+        let old_version = versions.latest_version().version;
+
         versions.upgrade_version(
             &config.path,
             |v| {
@@ -285,7 +287,21 @@ impl AbstractTree for BlobTree {
             },
             &config.seqno,
             &config.visible_seqno,
-        )
+        )?;
+
+        // NOTE: The new version does not reference the old tables and blob files anymore,
+        // so mark them as deleted, otherwise their files would stay on disk until the next recovery
+        //
+        // They are only actually unlinked when the last (snapshot) reference to them is dropped
+        for table in old_version.iter_tables() {
+            table.mark_as_deleted();
+        }
+
+        for blob_file in old_version.blob_files.iter() {
+            blob_file.mark_as_deleted();
+        }
+
+        Ok(())
     }
 
     fn major_compact(&self, target_size: u64, seqno_threshold: SeqNo) -> crate::Result<()> {
